@@ -50,8 +50,29 @@ def tours(edges, init_key=None, max_len=400):
     scenarios = []
     cur, scen = init_key, []
 
+    # BFS tree from the initial state, computed once: a scenario that starts afresh goes to the first state in
+    # BFS order that still has an unvisited out-edge (the set of such states only shrinks)
+    tree = {init_key: None}
+    order = [init_key]
+    for s in order:
+        for t, ei in succ.get(s, {}).items():
+            if t not in tree:
+                tree[t] = ei
+                order.append(t)
+    ptr = [0]
+
     def nearest(src):
         # BFS over states to the closest state with an unvisited out-edge; returns edge path
+        if src == init_key:
+            while ptr[0] < len(order) and not unvisited.get(order[ptr[0]]):
+                ptr[0] += 1
+            if ptr[0] == len(order):
+                return None
+            s, path = order[ptr[0]], []
+            while tree[s] is not None:
+                path.append(tree[s])
+                s = fk[tree[s]]
+            return list(reversed(path))
         seen = {src: None}
         q = collections.deque([src])
         while q:
@@ -76,6 +97,12 @@ def tours(edges, init_key=None, max_len=400):
             scen.append(edges[ei]["act"])
             cur = tk[ei]
             if nondet[ei]:       # end the scenario here
+                # the implementation takes whichever successor it takes: the sibling edges (same state, same call)
+                # would schedule the very same calls again
+                sib = [x for x in unvisited[fk[ei]] if ak[x] == ak[ei]]
+                if sib:
+                    unvisited[fk[ei]] = [x for x in unvisited[fk[ei]] if ak[x] != ak[ei]]
+                    remaining -= len(sib)
                 scenarios.append(scen)
                 scen, cur = [], init_key
             continue
